@@ -33,9 +33,17 @@ type Env struct {
 	vars   map[types.Object]*Var
 	parent *Env
 	pkg    *packages.Package
+	frame  *activation // the function activation this scope belongs to
 }
 
-func (e *Env) child() *Env { return &Env{vars: map[types.Object]*Var{}, parent: e, pkg: e.pkg} }
+// activation holds the deferred calls of one function activation.
+type activation struct {
+	deferred []func() Value
+}
+
+func (e *Env) child() *Env {
+	return &Env{vars: map[types.Object]*Var{}, parent: e, pkg: e.pkg, frame: e.frame}
+}
 func (e *Env) lookup(o types.Object) *Var {
 	for x := e; x != nil; x = x.parent {
 		if v, ok := x.vars[o]; ok {
@@ -67,6 +75,8 @@ type Evaluator struct {
 	Fset     *token.FileSet
 	FuncDecl func(*types.Func) (*ast.FuncDecl, *packages.Package)
 	Extern   map[string]ExternFn
+	// VarInit returns the initialiser expression of a package-level variable (nil if none / not in the repository).
+	VarInit func(*types.Var) (ast.Expr, *packages.Package)
 	// Domain gives the element domain of an abstract sequence (values enumerated on read).
 	Domain    func(seq AbsSeq) []Value
 	MaxSteps  int
@@ -201,6 +211,8 @@ func (ev *Evaluator) callFuncVal(pos token.Pos, fv *FuncVal, args []Value) Value
 		ftype, body = fv.Lit.Type, fv.Lit.Body
 		env = fv.Env.child()
 	}
+	fr := &activation{}
+	env.frame = fr
 	info := env.pkg.TypesInfo
 	i := 0
 	for _, f := range ftype.Params.List {
@@ -243,6 +255,22 @@ func (ev *Evaluator) callFuncVal(pos token.Pos, fv *FuncVal, args []Value) Value
 		}
 	}
 	c := ev.block(env, body.List)
+	// a return statement assigns the result variables, then the deferred calls run (LIFO) and may
+	// change them; the function returns what the result variables hold afterwards.
+	if len(fr.deferred) > 0 && len(resultVars) > 0 && c.kind == ctrlReturn && !c.bare {
+		if t, ok := c.val.(Tuple); ok && len(t) == len(resultVars) {
+			for i, rv := range resultVars {
+				rv.V = t[i]
+			}
+			c.bare = true
+		} else if len(resultVars) == 1 {
+			resultVars[0].V = c.val
+			c.bare = true
+		}
+	}
+	for i := len(fr.deferred) - 1; i >= 0; i-- {
+		fr.deferred[i]()
+	}
 	if c.kind == ctrlReturn {
 		if c.bare && len(resultVars) > 0 {
 			if len(resultVars) == 1 {
@@ -432,7 +460,17 @@ func (ev *Evaluator) global(pos token.Pos, o *types.Var) Value {
 	if v, ok := ev.globals[o]; ok {
 		return v.V
 	}
-	// package-level variables are opaque symbolic values named after themselves
+	// a repository variable with an initialiser starts with its value
+	if ev.VarInit != nil {
+		if init, pkg := ev.VarInit(o); init != nil {
+			cell := &Var{Obj: o, V: Opaque{Why: "initialisation cycle of " + o.Name()}}
+			ev.globals[o] = cell
+			env := &Env{vars: map[types.Object]*Var{}, pkg: pkg, frame: &activation{}}
+			cell.V = Copy(ev.resolve(ev.expr(env, init)))
+			return cell.V
+		}
+	}
+	// other package-level variables are opaque symbolic values named after themselves
 	var v Value
 	if types.Implements(o.Type(), errorIface()) || o.Type().String() == "error" {
 		v = ErrVal{Msg: SSym(o.Pkg().Name() + "." + o.Name())}
@@ -792,6 +830,8 @@ func (ev *Evaluator) binop(pos token.Pos, op token.Token, x, y Value, t types.Ty
 		case Slice:
 			isNil = xv.A == nil
 		case ErrVal:
+			isNil = false
+		case *Ref, *StructVal, *FuncVal, *ChanVal:
 			isNil = false
 		case Nil:
 			isNil = true
@@ -1204,17 +1244,21 @@ func (ev *Evaluator) lvalue(env *Env, e ast.Expr) *Ref {
 
 // ---------------------------------------------------------------- calls (syntax)
 
-func (ev *Evaluator) call(env *Env, e *ast.CallExpr) Value {
+func (ev *Evaluator) call(env *Env, e *ast.CallExpr) Value { return ev.prepareCall(env, e)() }
+
+// prepareCall evaluates the function value, receiver and arguments of a call (what a defer statement
+// evaluates) and returns the call itself as a thunk.
+func (ev *Evaluator) prepareCall(env *Env, e *ast.CallExpr) func() Value {
 	info := env.pkg.TypesInfo
 	// conversion
 	if tv, ok := info.Types[e.Fun]; ok && tv.IsType() {
 		x := ev.resolve(ev.expr(env, e.Args[0]))
-		return ev.convert(e.Pos(), x, tv.Type, info.TypeOf(e.Args[0]))
+		return func() Value { return ev.convert(e.Pos(), x, tv.Type, info.TypeOf(e.Args[0])) }
 	}
 	// builtin
 	if id, ok := unparen(e.Fun).(*ast.Ident); ok {
 		if b, ok := info.Uses[id].(*types.Builtin); ok {
-			return ev.builtin(env, e, b.Name())
+			return func() Value { return ev.builtin(env, e, b.Name()) }
 		}
 	}
 	var args []Value
@@ -1245,7 +1289,7 @@ func (ev *Evaluator) call(env *Env, e *ast.CallExpr) Value {
 				// pointer receiver on addressable value: pass a reference
 				if sig := fn.Type().(*types.Signature); sig.Recv() != nil {
 					if _, isPtr := sig.Recv().Type().(*types.Pointer); isPtr {
-						if _, already := recv.(*Ref); !already && fn.FullName()[:19] == "(*strings.Builder)." {
+						if _, already := recv.(*Ref); !already && strings.HasPrefix(fn.FullName(), "(*strings.Builder).") {
 							recv = ev.lvalue(env, sel.X) // the builder's contents replace the variable's value
 						} else if !already {
 							holder := recv
@@ -1258,14 +1302,16 @@ func (ev *Evaluator) call(env *Env, e *ast.CallExpr) Value {
 			}
 		}
 		evalArgs()
-		if fn.FullName() == "sort.Sort" || fn.FullName() == "sort.Stable" {
-			if len(e.Args) == 1 {
-				if ev.sortInterface(env, e, args[0]) {
-					return nil
+		return func() Value {
+			if fn.FullName() == "sort.Sort" || fn.FullName() == "sort.Stable" {
+				if len(e.Args) == 1 {
+					if ev.sortInterface(env, e, args[0]) {
+						return nil
+					}
 				}
 			}
+			return ev.callTypesFunc(e.Pos(), fn, recv, args)
 		}
-		return ev.callTypesFunc(e.Pos(), fn, recv, args)
 	}
 	// dynamic: function value
 	f := ev.resolve(ev.expr(env, e.Fun))
@@ -1275,9 +1321,9 @@ func (ev *Evaluator) call(env *Env, e *ast.CallExpr) Value {
 	}
 	evalArgs()
 	if fv.Fn != nil && fv.Lit == nil && fv.Decl == nil && fv.Native == nil {
-		return ev.callTypesFunc(e.Pos(), fv.Fn, fv.Recv, args)
+		return func() Value { return ev.callTypesFunc(e.Pos(), fv.Fn, fv.Recv, args) }
 	}
-	return ev.callFuncVal(e.Pos(), fv, args)
+	return func() Value { return ev.callFuncVal(e.Pos(), fv, args) }
 }
 
 func unparen(e ast.Expr) ast.Expr {
@@ -1717,11 +1763,38 @@ func (ev *Evaluator) native(pos token.Pos, fn *types.Func, recv Value, args []Va
 		if !s.IsConst() {
 			ev.fail(pos, "ParseFloat of symbolic string")
 		}
-		f, err := strconv.ParseFloat(s.Const(), 64)
+		bits := 64
+		if len(args) > 1 {
+			if l, ok := args[1].(Lin); ok && l.IsConst() {
+				bits = int(l.C) // a 32-bit parse rounds to float32: the value differs
+			} else {
+				ev.fail(pos, "ParseFloat with symbolic bit size")
+			}
+		}
+		f, err := strconv.ParseFloat(s.Const(), bits)
 		if err != nil {
 			return Tuple{FConst(0), ErrVal{Msg: S("parsefloat")}}, true
 		}
 		return Tuple{FConst(f), Nil{}}, true
+	case "path.Ext", "path/filepath.Ext", "path.Base", "path/filepath.Base":
+		a := argStr(0)
+		if !a.IsConst() {
+			ev.fail(pos, "%s of symbolic path", full)
+		}
+		if strings.HasSuffix(full, "Ext") {
+			return S(path.Ext(a.Const())), true
+		}
+		return S(path.Base(a.Const())), true
+	case "strings.ContainsRune", "strings.IndexRune":
+		a := argStr(0)
+		r := argLin(1)
+		if !a.IsConst() || !r.IsConst() {
+			ev.fail(pos, "%s of symbolic operands", full)
+		}
+		if full == "strings.ContainsRune" {
+			return strings.ContainsRune(a.Const(), rune(r.C)), true
+		}
+		return K(int64(strings.IndexRune(a.Const(), rune(r.C)))), true
 	case "path.Join", "path/filepath.Join":
 		var parts []string
 		for _, a := range args {
@@ -1966,7 +2039,7 @@ func (ev *Evaluator) RunUntil(fn *types.Func, args []Value, stop func(ast.Stmt) 
 	if decl == nil || decl.Body == nil {
 		return nil, fmt.Errorf("no source for %s", fn.FullName())
 	}
-	env := &Env{vars: map[types.Object]*Var{}, pkg: pkg}
+	env := &Env{vars: map[types.Object]*Var{}, pkg: pkg, frame: &activation{}}
 	info := pkg.TypesInfo
 	i := 0
 	for _, f := range decl.Type.Params.List {
@@ -2021,7 +2094,7 @@ func (ev *Evaluator) GetGlobal(o *types.Var) Value {
 // RunLitUntil interprets the top-level statements of a function literal until stop
 // reports true; it returns the value of an executed return statement, if any.
 func (ev *Evaluator) RunLitUntil(lit *ast.FuncLit, pkg *packages.Package, args []Value, stop func(ast.Stmt) bool) (ret Value, returned bool, err error) {
-	env := &Env{vars: map[types.Object]*Var{}, pkg: pkg}
+	env := &Env{vars: map[types.Object]*Var{}, pkg: pkg, frame: &activation{}}
 	info := pkg.TypesInfo
 	i := 0
 	for _, f := range lit.Type.Params.List {
@@ -2051,6 +2124,16 @@ func (ev *Evaluator) RunLitUntil(lit *ast.FuncLit, pkg *packages.Package, args [
 				break
 			}
 		}
+	})
+	return
+}
+
+// CallLit interprets a function literal that captures no local variables (e.g. a RunE field).
+func (ev *Evaluator) CallLit(lit *ast.FuncLit, pkg *packages.Package, args ...Value) (res Value, err error) {
+	ev.steps = 0
+	err = ev.Try(func() {
+		fv := &FuncVal{Lit: lit, Env: &Env{vars: map[types.Object]*Var{}, pkg: pkg}, Pkg: pkg}
+		res = ev.callFuncVal(lit.Pos(), fv, args)
 	})
 	return
 }
